@@ -8,7 +8,6 @@ From GV Require Import Base.Ints Gen.Math Gen.Kernel Model.Mirror
   Proofs.MirrorResumeOps Proofs.MirrorResumeOps2.
 Import ListNotations.
 Local Open Scope N_scope.
-Set Default Timeout 60.
 
 (** * A write to one round-store cell of the voting height that changes no view *)
 Lemma K_cell_write ih ivs s s2 r e' w :
